@@ -13,6 +13,7 @@ import (
 
 func init() {
 	vfRegister(&vfProp{
+		noDouble:  true,
 		id:        "C09",
 		classes:   []string{"seeded", "seeded-alloc"},
 		gen:       c09Gen,
